@@ -79,6 +79,9 @@ class World:
             interp.event("validated", name, _show(value), "line=%s" % line, "cell=%s" % cell, outcome)
             if outcome == FIELD_BAD:
                 interp.raise_("cutplace.errors.FieldValueError", Opaque("str", True, ["<reason %s>" % name]))
+            # what a field hands back is the typed value, not the cell: whoever passes it on instead of the cell is seen
+            if isinstance(value, Atom):
+                return Atom("typed(%s)" % value.name, "typed(%s)" % value.klass, is_str=False)
             return value
 
         field.attrs["validated"] = validated
